@@ -233,3 +233,55 @@ func VH_C02_priority_busy() {
 		vrtReach("two-system-one-user-pending")
 	}
 }
+
+// VH_C02_stash_large: the same law as VH_C02_stash with stash sizes a real
+// actor may reach (up to 130), Unstash(n) with n symbolic in every region
+// (negative, zero, inside, at the size, beyond).
+func VH_C02_stash_large() {
+	w := vhNewWorld()
+	a := &vhActor{name: "a"}
+	stashing := true
+	a.onMsg = func(ctx vivid.ActorContext, m vivid.Message) {
+		if _, ok := m.(*vhUserMsg); ok && stashing {
+			ctx.Stash()
+		}
+	}
+	c := w.spawn(w.root, "a", a)
+	s := []int{17, 64, 65, 130}[vrtChoose(4)]
+	for i := 0; i < s; i++ {
+		c.TellSelf(&vhUserMsg{N: i})
+	}
+	w.run(400, "setup")
+	vrtAssert(c.StashCount() == s, "stash-count")
+	stashing = false
+	box := w.boxes[c]
+	next := 0
+	for call := 0; call < 3; call++ {
+		before := len(box.usr)
+		region := vrtChoose(6)
+		n := []int{-3, 0, 1, s / 2, s - next, s + 7}[region]
+		c.Unstash(n)
+		expect := n
+		if expect > s-next {
+			expect = s - next
+		}
+		if expect < 0 {
+			expect = 0
+		}
+		got := len(box.usr) - before
+		vrtAssert(got == expect, "unstash-count-is-clamped-n")
+		for k := 0; k < got; k++ {
+			m, ok := box.usr[before+k].Message().(*vhUserMsg)
+			vrtAssert(ok && m.N == next+k, "unstash-prefix-in-order")
+		}
+		next += got
+		vrtAssert(c.StashCount() == s-next, "rest-kept")
+	}
+	c.Unstash(s + 1)
+	vrtAssert(c.StashCount() == 0 && len(box.usr) == s, "exactly-once")
+	for k := 0; k < s; k++ {
+		m, ok := box.usr[k].Message().(*vhUserMsg)
+		vrtAssert(ok && m.N == k, "unstash-prefix-in-order")
+	}
+	vrtReach("large-stash")
+}
